@@ -6,6 +6,7 @@ import time
 import conc
 import crash
 import minthist
+import tables
 from core import tier, write_evidence
 
 ASSUME = ["SQLite gives per-call atomicity (a crash or a context switch happens between storage calls, not inside one)",
@@ -78,6 +79,16 @@ def c07():
 @reg("C09")
 def c09():
     return minthist.check("C09", fees=(0, 100, 1000, 2500))
+
+
+@reg("C12")
+def c12():
+    return tables.check_locks("C12", "p2pk")
+
+
+@reg("C13")
+def c13():
+    return tables.check_locks("C13", "htlc")
 
 
 @reg("C15")
